@@ -18,6 +18,7 @@ import (
 	"testing"
 	"time"
 
+	"github.com/nspcc-dev/neo-go/pkg/core/block"
 	"github.com/nspcc-dev/neo-go/pkg/core/native/nativehashes"
 	"github.com/nspcc-dev/neo-go/pkg/core/transaction"
 	"github.com/nspcc-dev/neo-go/pkg/util"
@@ -34,6 +35,11 @@ type plan struct {
 	Pad    int
 	Prefix []string   // forced first blocks (one history)
 	Levels [][]string // alphabet of each free level after the prefix
+	// Restart: the replica is closed and reopened on its store before the last
+	// block of every history (native caches are rebuilt from storage); the
+	// accounting state after the block must also equal the one of a replica
+	// that was never restarted.
+	Restart bool
 }
 
 func (p plan) famKey() string {
@@ -239,13 +245,16 @@ func boundary(n *chainx.Node, before *tokState, dump map[string]string, probes [
 		harness("height %d: %v", n.Height(), err)
 	}
 	vs := after.staticInvariants(n.BC.GetContractState(nativehashes.Notary) != nil)
+	for _, m := range ev.Neg {
+		vs = append(vs, viol{"negative", m})
+	}
 	vs = append(vs, deltaInvariant(before, after, ev)...)
 	return after, ev, vs
 }
 
 func firstInv(vs []viol) string {
 	// fixed priority so that the key of one defect is stable
-	for _, inv := range []string{"neo-supply", "neo-sum", "gas-sum", "candidate-votes", "voters-count", "notary-deposits", "negative", "delta-events"} {
+	for _, inv := range []string{"neo-supply", "neo-sum", "gas-sum", "candidate-votes", "voters-count", "notary-deposits", "negative", "delta-events", "restart-differs"} {
 		for _, v := range vs {
 			if v.Inv == inv {
 				return inv
@@ -364,7 +373,7 @@ func (pr *planRun) visit(h []int) (extend bool) {
 	if err != nil {
 		harness("cannot start a replica: %v", err)
 	}
-	defer n.Close()
+	defer func() { n.Close() }()
 	for _, bb := range pr.sc.Preamble {
 		if err := n.AddBytes(bb); err != nil {
 			harness("preamble replay: %v", err)
@@ -381,6 +390,13 @@ func (pr *planRun) visit(h []int) (extend bool) {
 		}
 		before = tn.state
 	}
+	if pr.p.Restart {
+		m, err := n.Reopen()
+		if err != nil {
+			harness("restart before the last block of %v: %v", pr.histNames(h), err)
+		}
+		n = m
+	}
 	w := pr.sc.World.Attach(n)
 	var built []*transaction.Transaction
 	if err := chainx.Try(func() {
@@ -391,7 +407,15 @@ func (pr *planRun) visit(h []int) (extend bool) {
 	}); err != nil {
 		return notAppl(err)
 	}
-	b, err := n.AddBlock(built...)
+	var b *block.Block
+	if strings.HasSuffix(tplName, "@1y") {
+		b, err = futureBlock(n, 366*24*3600*1000, built)
+		if err == nil {
+			err = n.BC.AddBlock(b)
+		}
+	} else {
+		b, err = n.AddBlock(built...)
+	}
 	if err != nil {
 		return notAppl(err)
 	}
@@ -400,6 +424,11 @@ func (pr *planRun) visit(h []int) (extend bool) {
 		harness("%v", err)
 	}
 	after, ev, vs := boundary(n, before, n.StorageDump(dumpIDs), pr.probes)
+	if pr.p.Restart {
+		if d := pr.neverRestarted(h, bb, after); d != "" {
+			vs = append(vs, viol{"restart-differs", d})
+		}
+	}
 	pr.mu.Lock()
 	pr.tree[hkey(h)] = &tnode{block: bb, state: after}
 	pr.mu.Unlock()
@@ -415,6 +444,55 @@ func (pr *planRun) visit(h []int) (extend bool) {
 		return false
 	}
 	return true
+}
+
+// futureBlock builds the next block dated ms milliseconds after its parent
+// (lock periods counted in wall time, e.g. Policy.recoverFund).
+func futureBlock(n *chainx.Node, ms uint64, built []*transaction.Transaction) (*block.Block, error) {
+	ref, err := n.NewBlock(built...)
+	if err != nil {
+		return nil, err
+	}
+	b := &block.Block{Header: ref.Header, Transactions: built}
+	b.Header = block.Header{
+		Version: ref.Version, PrevHash: ref.PrevHash, MerkleRoot: ref.MerkleRoot, Timestamp: ref.Timestamp + ms, Nonce: ref.Nonce,
+		Index: ref.Index, PrimaryIndex: ref.PrimaryIndex, NextConsensus: ref.NextConsensus,
+		StateRootEnabled: ref.StateRootEnabled, PrevStateRoot: ref.PrevStateRoot,
+		Script: transaction.Witness{VerificationScript: ref.Script.VerificationScript},
+	}
+	vals, err := n.BC.GetNextBlockValidators()
+	if err != nil {
+		return nil, err
+	}
+	return b, chainx.SignBlock(b, vals, uint32(n.BC.GetConfig().Magic))
+}
+
+// neverRestarted replays the same history on a replica that is never
+// restarted and compares the accounting state (every decoded field).
+func (pr *planRun) neverRestarted(h []int, last []byte, got *tokState) string {
+	n, err := chainx.New(pr.p.Fam.Opts())
+	if err != nil {
+		harness("cannot start a replica: %v", err)
+	}
+	defer n.Close()
+	for _, bb := range pr.sc.Preamble {
+		if err := n.AddBytes(bb); err != nil {
+			harness("preamble replay: %v", err)
+		}
+	}
+	for i := 1; i < len(h); i++ {
+		if err := n.AddBytes(pr.get(h[:i]).block); err != nil {
+			harness("replay of %v: %v", pr.histNames(h[:i]), err)
+		}
+	}
+	if err := n.AddBytes(last); err != nil {
+		return "the block accepted after the restart is rejected by a replica that never restarted: " + err.Error()
+	}
+	want, err := decode(n.StorageDump(dumpIDs))
+	if err != nil {
+		harness("%v", err)
+	}
+	return want.diff(got)
 }
 
 func execStates(ev *blockEvents) []string {
